@@ -1331,6 +1331,9 @@ class WcParse(Generic[AnyStr]):
 
                     if value != globstar:
                         i.rewind(i.index - index)
+                        if c == '(' and self.extend:
+                            # The last star opens an extended group: `**(a)` is `*` then `*(a)`.
+                            i.rewind(1)
                 except StopIteration:
                     # Could not acquire directory slash due to no more characters
                     # Use double star
@@ -1341,9 +1344,12 @@ class WcParse(Generic[AnyStr]):
             # Consume duplicate starts
             try:
                 c = next(i)
+                dups = 0
                 while c == '*':
+                    dups += 1
                     c = next(i)
-                i.rewind(1)
+                # A star directly before `(` opens an extended group: `**(a)` is `*` then `*(a)`.
+                i.rewind(2 if dups and c == '(' and self.extend else 1)
             except StopIteration:
                 pass
 
